@@ -1,11 +1,80 @@
 (* C07 -- queue.Queue is a faithful double-ended queue across wrap-around and growth.
-   Only statements, each closed by [exact] of a lemma proved in Queue/QueueProofs.v. *)
-From Coq Require Import ZArith List.
+   Only statements, each closed by [exact] of a lemma proved in Queue/QueueProofs.v.
+
+   Reading guide.  Queue/QueueModel.v: the Go code statement by statement on {vs; head; n}
+   (index arithmetic from Gen/QueueIdx.v), [step]/[run]/[exec] over histories; results are
+   Ok / Panic kind / BadOracle (there is no fuel, hence no fuel-exhaustion result at all).
+   Queue/QueueSpec.v: the reference -- a plain list -- [spec_step]/[spec_run]/[spec_exec], and
+   [oracles_ok cap cnt ops]: every Add/Push that finds the ring full carries an oracle c > cap
+   (append's contract), where (cap, cnt) evolve by [cap_next]. *)
+From Coq Require Import ZArith List Lia.
 Import ListNotations.
 From Mds Require Import Queue.QueueModel Queue.QueueSpec Queue.QueueProofs.
 Local Open Scope Z_scope.
 
-(* Peek(k) with k outside [-n, n) is (zero, false) -- in every state, for every element type. *)
+(* For every element type, every initial configuration (zero value, New, NewSize k with k >= 0),
+   every history of Add, Push, Pop, PopLast, Clear, Len, IsEmpty, Front, Peek k (any k), Each
+   (stopped after any number of calls), Slice, and every choice of growth capacities that respects
+   append's contract: every output of the ring-buffer model -- return values, ok flags, and all
+   observations -- equals the output of the plain-list reference; in particular no step panics. *)
+Theorem C07_history : forall (T : Type) (zero : T) (i : init) (ops : list (op T)),
+  init_ok i -> oracles_ok T (init_cap i) 0 ops ->
+  run_init T zero i ops = map Ok (spec_run T zero [] ops).
+Proof. exact history. Qed.
+Print Assumptions C07_history.
+(* NewSize(3); Push wraps head below 0; Add fills to exactly full with head = 2; Push must rotate
+   and regrow (oracle 7); Add/PopLast/Pop around the new ring; Peek(-1), Peek(-5), Each, Slice. *)
+Example C07_history_ex :
+  let ops := [OPush 1 0; OAdd 2 0; OAdd 3 0; OPush 4 7; OLen; OPeek (-1); OPeek (-5); OPopLast;
+              OAdd 5 0; OPop; OFront; OEach 1; OSlice; OIsEmpty] in
+  (init_ok (ISize 3) /\ oracles_ok Z (init_cap (ISize 3)) 0 ops) /\
+  run_init Z 0 (ISize 3) ops =
+    [Ok RUnit; Ok RUnit; Ok RUnit; Ok RUnit; Ok (RInt 4); Ok (RVal 3 true); Ok (RVal 0 false);
+     Ok (RVal 3 true); Ok RUnit; Ok (RVal 4 true); Ok (RElem 1); Ok (RList [1; 2]);
+     Ok (RList [1; 2; 5]); Ok (RBool false)] /\
+  exec_init Z 0 (ISize 3) (firstn 4 ops) = Ok {| vs := [1; 2; 3; 4; 0; 0; 4]; head := 6; n := 4 |}.
+Proof. cbv zeta. split; [split; [vm_compute; discriminate|cbn; lia]|]. split; vm_compute; reflexivity. Qed.
+
+(* Whatever the oracle values are (valid or not): the outputs are a prefix of the reference's
+   outputs, followed by a single BadOracle exactly when a growth step was handed a capacity that
+   does not exceed the old length. *)
+Theorem C07_history_any_oracle : forall (T : Type) (zero : T) (i : init) (ops : list (op T)),
+  init_ok i ->
+  exists k, run_init T zero i ops =
+    map Ok (firstn k (spec_run T zero [] ops)) ++ (if (k <? length ops)%nat then [BadOracle] else []).
+Proof. exact history_any_oracle. Qed.
+Print Assumptions C07_history_any_oracle.
+Example C07_history_any_oracle_ex :
+  run_init Z 0 IZero [OAdd 1 1; OAdd 2 1; OLen] = [Ok RUnit; BadOracle] /\
+  run_init Z 0 IZero [OAdd 1 1; OAdd 2 5; OLen] = [Ok RUnit; Ok RUnit; Ok (RInt 2)].
+Proof. split; vm_compute; reflexivity. Qed.
+
+(* No panic (index, division by zero, Rotate offset, make) in any history, whatever the oracles. *)
+Theorem C07_no_panic : forall (T : Type) (zero : T) (i : init) (ops : list (op T)) (pk : panic_kind),
+  init_ok i -> ~ In (Panic pk) (run_init T zero i ops).
+Proof. exact no_panic. Qed.
+Print Assumptions C07_no_panic.
+(* the hypothesis is needed: NewSize(-1) panics in make *)
+Example C07_no_panic_ex : init_ok (ISize 2) /\ run_init Z 0 (ISize (-1)) [OLen] = [Panic PMakeLen].
+Proof. split; [vm_compute; discriminate|vm_compute; reflexivity]. Qed.
+
+(* In every state a history leads to: Each with an arbitrary stateful callback calls it on the
+   reference sequence in order until it answers false, and Peek at every offset agrees with the
+   reference (this is "for all k" as a universally quantified statement, not as an op). *)
+Theorem C07_each_peek_any : forall (T : Type) (zero : T) (i : init) (ops : list (op T))
+    (A : Type) (f : A -> T -> A * bool) (a : A),
+  init_ok i -> oracles_ok T (init_cap i) 0 ops ->
+  exists q, exec_init T zero i ops = Ok q /\
+    each T A f q a = Ok (spec_each T f (spec_exec T zero [] ops) a) /\
+    (forall k, peek T zero q k = Ok (spec_peek T zero (spec_exec T zero [] ops) k)).
+Proof. exact each_any_callback. Qed.
+Print Assumptions C07_each_peek_any.
+Example C07_each_peek_any_ex :
+  spec_exec Z 0 [] [OAdd 1 1; OAdd 2 2; OPush 3 4; OPop] = [1; 2] /\
+  each Z Z (fun s x => (s + x, true)) {| vs := [1; 2; 0; 3]; head := 0; n := 2 |} 10 = Ok 13.
+Proof. split; vm_compute; reflexivity. Qed.
+
+(* Peek(k) with k outside [-n, n) is (zero, false) -- in every state, even an ill-formed one. *)
 Theorem C07_peek_out_of_range : forall (T : Type) (zero : T) (q : queue T) (k : Z),
   k < - n q \/ k >= n q -> peek T zero q k = Ok (zero, false).
 Proof. exact peek_out_of_range. Qed.
@@ -14,3 +83,23 @@ Example C07_peek_out_of_range_ex :
   peek Z 0 {| vs := [7; 8; 9]; head := 2; n := 2 |} (-3) = Ok (0, false) /\
   peek Z 0 {| vs := [7; 8; 9]; head := 2; n := 2 |} (-2) = Ok (9, true).
 Proof. vm_compute. split; reflexivity. Qed.
+
+(* Every state a history leads to (whatever the oracles) satisfies the ring invariant that the
+   hook values head/n/len(vs) are compared against; head is reset to 0 whenever the queue empties. *)
+Theorem C07_ring_invariant : forall (T : Type) (zero : T) (i : init) (ops : list (op T)) (q : queue T),
+  init_ok i -> exec_init T zero i ops = Ok q ->
+  0 <= n q <= zlen T (vs q) /\ 0 <= head q /\ (head q < zlen T (vs q) \/ head q = 0) /\ (n q = 0 -> head q = 0).
+Proof. exact reachable_inv. Qed.
+Print Assumptions C07_ring_invariant.
+Example C07_ring_invariant_ex :
+  exec_init Z 0 (ISize 2) [OPush 1 0; OPop] = Ok {| vs := [0; 1]; head := 0; n := 0 |}.
+Proof. vm_compute. reflexivity. Qed.
+
+(* Observers do not change the state. *)
+Theorem C07_observers_pure : forall (T : Type) (zero : T) (q q' : queue T) (o : op T) (r : out T),
+  is_observer T o = true -> step T zero q o = Ok (q', r) -> q' = q.
+Proof. intros T zero q q' o r. exact (observers_pure T zero q o q' r). Qed.
+Print Assumptions C07_observers_pure.
+Example C07_observers_pure_ex :
+  step Z 0 {| vs := [7; 8; 9]; head := 2; n := 2 |} OSlice = Ok ({| vs := [7; 8; 9]; head := 2; n := 2 |}, RList [9; 7]).
+Proof. vm_compute. reflexivity. Qed.
